@@ -271,8 +271,25 @@ class RawGen:
                     import copy as _copy
                     o1 = self.out_struct(1)
                     outs = [o1, _copy.deepcopy(o1)]
+                if self.ch(0.08):
+                    # a decorator's group result written with flatten (a slice of slices): followed by a consumer
+                    et = named(self.r.randrange(3))
+                    gt = self.grouptag(True)
+                    gt["opts"] = ["flatten"]
+                    fld = {"exported": True, "embedded": False, "tags": self.tags(group=gt), "ty": {"t": "slice", "e": {"t": "slice", "e": et}}}
+                    outs = [{"t": "struct", "fields": [{"exported": True, "embedded": True, "tags": self.tags(), "ty": {"t": "out"}}, fld]}]
+                    self.pending_group_consumer = (et, gt["name"])
                 raw = self.value_kind(self.func(self.r.choice([0, 1, 1, 2]), self.with_error(outs)))
                 ops.append({"op": "rawdecorate", "scope": s, "fn": fn, "raw": raw, "opts": None})
+                pg = getattr(self, "pending_group_consumer", None)
+                if pg:
+                    self.pending_group_consumer = None
+                    et, gname = pg
+                    cons = {"t": "struct", "fields": [{"exported": True, "embedded": True, "tags": self.tags(), "ty": {"t": "in"}},
+                                                      {"exported": True, "embedded": False, "tags": self.tags(group={"name": gname, "opts": []}), "ty": {"t": "slice", "e": et}}]}
+                    self.nfn += 1
+                    ops.append({"op": "rawinvoke", "scope": s, "fn": self.nfn - 1,
+                                "raw": {"value": "func", "ins": [cons], "outs": [], "variadic": False}, "opts": None})
             else:
                 outs = [] if self.ch(0.5) else [{"t": "error"}]
                 if self.ch(0.1):
